@@ -7,5 +7,5 @@ Extraction "c03_model.ml" opt_sizes batch_partitioning create repartition split_
   cv_iid cv_create req_valid req_k scv_create s_validation s_training
   valid_members valid_perm view_to_dataset binary_indices indexed_order
   binary_sub_problem view_of view_subset view_get vi_dataset_index to_dataset class_order class_order_loop repartition_by_class_loop
-  step contents hnd init independent cv_indexed_shared cv_batch_shared fold_validation_shared fold_training_shared
+  step contents hnd init independent cv_indexed_shared fold_validation_shared fold_training_shared
   view_shared view_write.
